@@ -22,8 +22,8 @@ import (
 	zz "github.com/siglens/siglens/pkg/zzverif"
 )
 
-func verifC18TrGetBuf(size int64) []byte  { return make([]byte, size) }
-func verifC18TrPutBuf(buf []byte) error { return nil }
+func verifC18TrGetBuf(size int64) []byte { return make([]byte, size) }
+func verifC18TrPutBuf(buf []byte) error  { return nil }
 
 func VerifC18TimeReaderDamagedBlock() {
 	dir, err := os.MkdirTemp("", "veriftrr")
@@ -59,7 +59,7 @@ func VerifC18TimeReaderDamagedBlock() {
 	switch fault {
 	case 1:
 		pos := zz.Choice("alteredByte", total)
-		zz.Assume(pos >= 4)                     // first-chunk magic: legacy fallback, recorded separately
+		zz.Assume(pos >= 4)                   // first-chunk magic: legacy fallback, recorded separately
 		zz.Assume(pos%24 < 9 || pos%24 >= 12) // not the three high bytes of a chunk's length field
 		old := make([]byte, 1)
 		_, err := fd.ReadAt(old, int64(pos))
